@@ -715,7 +715,14 @@ def deep_equal(a, b):
 class C20(Prop):
   id = 'C20'
   lean_module = 'DK.Props.C20'
-  uses_t1 = False
+  uses_t1 = True      # T1l regenerates DK/Gen/Loaders/*.lean from the current source before the bridge is audited
+  bridge = ['DK.BridgeLoaders.' + t for t in (
+    'run_to_array_scalar', 'run_to_array_pair', 'run_to_array_vec', 'run_to_cbounds_array', 'load_cbounds',
+    'load_load_device_bounds', 'load_fixed_load_device_bounds', 'load_storage_device_bounds', 'load_supply_device_bounds',
+    'load_thermal_load_device_bounds', 'tableBounds_toRun', 'loadDevice_fixedLoad', 'load_storage_device_parameter_map',
+    'load_storage_device_parameter_map_keys', 'load_thermal_load_device_parameter_map', 'storageSet_strGet',
+    'load_storage_device_params', 'care2bounds_pair', 'care2bounds_pairvec', 'care2bounds_vector',
+    'on2bounds_pair', 'on2bounds_pairvec', 'on2bounds_vector')]
   theorems = ['DK.Loader.' + t for t in (
     'runToArray_spec', 'runToArray_greatest', 'runToArray_perm', 'runToArray_perm_spec', 'runToArray_keyError',
     'runToArrayNp_homogeneous', 'runToCbounds_entries', 'runToCbounds_length', 'runToCbounds_partition', 'runToCbounds_perm',
